@@ -169,7 +169,7 @@ struct Ex {
       return true;
     }
     if (auto *DS = dyn_cast<DeclStmt>(S)) {
-      for (auto *D : DS->decls()) if (auto *VD = dyn_cast<VarDecl>(D)) if ((isNodeHandleType(VD->getType()) || VD->getType()->isBooleanType()) && !VD->getType()->isReferenceType()) {
+      for (auto *D : DS->decls()) if (auto *VD = dyn_cast<VarDecl>(D)) if ((isNodeHandleType(VD->getType()) || VD->getType()->isIntegralOrEnumerationType()) && !VD->getType()->isReferenceType() && (VD->hasInit() || isNodeHandleType(VD->getType()))) {
         o["k"] = "ldef";
         o["var"] = VD->getNameAsString();
         o["rhs"] = VD->hasInit() ? exprText(Ctx, VD->getInit()) : std::string("");
@@ -360,6 +360,17 @@ Value runFacts(ASTContext &Ctx) {
     f["q"] = q;
     f["inst"] = instName(Ctx, FD);
     f["sig"] = signatureOf(FD);
+    {
+      Array ps;
+      for (unsigned i = 0; i < FD->getNumParams(); i++) {
+        Object po;
+        po["name"] = FD->getParamDecl(i)->getNameAsString();
+        po["rec"] = recordNameOf(FD->getParamDecl(i)->getType());
+        po["handle"] = isNodeHandleType(FD->getParamDecl(i)->getType());
+        ps.push_back(std::move(po));
+      }
+      f["params"] = std::move(ps);
+    }
     f["file"] = relPath(SM, FD->getLocation());
     f["line"] = lineOf(SM, FD->getLocation());
     f["endline"] = lineOf(SM, FD->getEndLoc());
